@@ -361,6 +361,14 @@ func rankName(cr *collRoles, v int64) string {
 // by the same accessor, keeps their class of values and passes them in order.
 func checkIntrinsicArms(c *Ctx, r *Rec, cr *collRoles, rankD *ast.FuncDecl, rule string) {
 	info := cr.info
+	if rankD == nil {
+		// no dispatcher to read the admitted kinds from (the kinds are dispatched through a table,
+		// say): the arms of the intrinsic ranker are still there to be read
+		for _, fd := range findIntrinsicRankers(c, cr, nil) {
+			checkIntrinsicArmsOf(c, r, cr, fd, rule)
+		}
+		return
+	}
 	_, rc := kindClauses(info, rankD)
 	// intrinsic kinds admitted == arms of the intrinsic ranker
 	var intrinsicFD *ast.FuncDecl
@@ -388,6 +396,10 @@ func checkIntrinsicArms(c *Ctx, r *Rec, cr *collRoles, rankD *ast.FuncDecl, rule
 	}
 	if intrinsicFD == nil {
 		r.skip("D4-dispatch-agreement", "agent."+cr.n.Obj().Name()+"/intrinsic-kinds", c.pos(rankD.Pos()), "cannot bind the intrinsic ranker")
+		// admitted by a predicate in front of the switch, say: the arms are judged all the same
+		for _, fd := range findIntrinsicRankers(c, cr, rankD) {
+			checkIntrinsicArmsOf(c, r, cr, fd, rule)
+		}
 	} else {
 		isw, icl := kindClauses(info, intrinsicFD)
 		ik := flatten(icl)
@@ -397,7 +409,16 @@ func checkIntrinsicArms(c *Ctx, r *Rec, cr *collRoles, rankD *ast.FuncDecl, rule
 		r.check(strings.Join(ik, ",") == strings.Join(admitted, ","), "D4-dispatch-agreement", "agent."+cr.n.Obj().Name()+"/intrinsic-kinds", c.pos(intrinsicFD.Pos()),
 			fmt.Sprintf("the %d intrinsic kinds admitted by the dispatcher are exactly the arms of the intrinsic ranker", len(ik)),
 			fmt.Sprintf("admitted but without an arm (falls into the panic default): %v; arm without admission: %v", diff(admitted, ik), diff(ik, admitted)))
-		// arms: same accessor on both operands, passed in order
+		checkIntrinsicArmsOf(c, r, cr, intrinsicFD, rule)
+	}
+}
+
+// checkIntrinsicArmsOf: the arms of the intrinsic ranker - same accessor on both operands,
+// passed in order, no change of the class of values on the way to the leaf.
+func checkIntrinsicArmsOf(c *Ctx, r *Rec, cr *collRoles, intrinsicFD *ast.FuncDecl, rule string) {
+	info := cr.info
+	{
+		isw, _ := kindClauses(info, intrinsicFD)
 		params := paramObjs(info, intrinsicFD)
 		mir := newMirror(info, intrinsicFD, params[0], params[1])
 		if isw == nil {
@@ -833,4 +854,52 @@ func kindTable(c *Ctx, info *types.Info, fd *ast.FuncDecl) []string {
 func identOf(e ast.Expr) *ast.Ident {
 	id, _ := ast.Unparen(e).(*ast.Ident)
 	return id
+}
+
+// findIntrinsicRankers: the private methods (other than the dispatcher) whose kind switch hands
+// the primitives extracted from both operands to the leaves.
+func findIntrinsicRankers(c *Ctx, cr *collRoles, dispatcher *ast.FuncDecl) []*ast.FuncDecl {
+	info := cr.info
+	var out []*ast.FuncDecl
+	for _, name := range sortedKeys(cr.ms) {
+		fd := cr.ms[name]
+		if ast.IsExported(name) || fd.Body == nil || fd == dispatcher {
+			continue
+		}
+		fn := c.funcOf(fd)
+		if fn == nil {
+			continue
+		}
+		sig := fn.Type().(*types.Signature)
+		if sig.Results().Len() != 1 || isBoolType(sig.Results().At(0).Type()) {
+			continue
+		}
+		params := paramObjs(info, fd)
+		isw, _ := kindClauses(info, fd)
+		if isw == nil || len(params) != 2 {
+			continue
+		}
+		arms := 0
+		for _, cl := range isw.Body.List {
+			cc := cl.(*ast.CaseClause)
+			for _, st := range cc.Body {
+				if rs, ok := st.(*ast.ReturnStmt); ok && len(rs.Results) == 1 {
+					if call, ok := ast.Unparen(rs.Results[0]).(*ast.CallExpr); ok && len(call.Args) == 2 {
+						a0 := resolveInitIn(info, cc, call.Args[0])
+						if rx, _, ac, ok := methodCall(a0); ok && len(ac.Args) == 0 && isObj(info, rx, params[0]) {
+							if t := info.TypeOf(a0); t != nil {
+								if _, isBasic := t.Underlying().(*types.Basic); isBasic {
+									arms++
+								}
+							}
+						}
+					}
+				}
+			}
+		}
+		if arms >= 3 {
+			out = append(out, fd)
+		}
+	}
+	return out
 }
